@@ -361,6 +361,10 @@ func (ip *interp) addStems(vertical bool) error {
 	if len(ip.g.HStem)/2+len(ip.g.VStem)/2+nNew > maxStems {
 		return errors.New("reft2: more than 96 stem hints")
 	}
+	// TN5177: "in the first pair, y is relative to 0" - for every stem operator.  (An earlier version of
+	// this reference accumulated edges across consecutive operators of the same direction; FreeType's
+	// cf2_doStems and the library restart at 0, which is the reading adopted here.)
+	ip.lastH, ip.lastV = 0, 0
 	for i := 0; i+1 < len(ip.stack); i += 2 {
 		if vertical {
 			a := ip.lastV + ip.stack[i]
